@@ -41,7 +41,15 @@ def observe(w: World, obs: Obs, group=None) -> dict:
     return out
 
 
-def has_known_structure(w: World, obs: Obs, memory: bool) -> bool:
+def has_known_structure(w: World, obs: Obs, memory: bool, stmts=None, inputs=None) -> bool:
+    """The structure of KF-crosstalk in one build.  With the program given, the structure only
+    counts when the program text can trigger the known defect (static_trigger): a fused network in
+    a program without that shape is something else and must be judged."""
+    if stmts is not None:
+        from ..static_trigger import crosstalk_possible
+
+        if not crosstalk_possible(stmts, inputs or []):
+            return False
     labels = {n: k for k, v in obs.inputs.items() for n in v}
     return bool(crosstalk_sites(w, [], labels, memory_ok=memory))
 
